@@ -1,0 +1,28 @@
+//go:build verif
+
+package coordinator
+
+import (
+	"time"
+
+	meta2 "github.com/openGemini/openGemini/lib/util/lifted/influx/meta"
+	"github.com/openGemini/openGemini/lib/util/lifted/vm/protoparser/influx"
+)
+
+// VerifC11RouteStreamReuse runs the routing step routeAndCalculateStreamRows uses when a stream's destination is taken to share
+// the source's distribution (updateSrcStreamDstShardIdMapWithShardKey: updateShardGroupAndShardKey with stream = true and
+// reuseShardKey = true): the shard of the destination measurement is chosen with the shard-key bytes already computed for the
+// SOURCE row. Thin wrapper, no behaviour.
+func VerifC11RouteStreamReuse(mc PWMetaClient, dstDB *meta2.DatabaseInfo, dstMst *meta2.MeasurementInfo, database, retentionPolicy string,
+	row *influx.Row) (err error, sh *meta2.ShardInfo, partialErr error) {
+	pw := NewPointsWriter(time.Second)
+	pw.MetaClient = mc
+	ctx := getInjestionCtx()
+	defer putInjestionCtx(ctx)
+	ctx.streamDBs = []*meta2.DatabaseInfo{dstDB}
+	ctx.streamMSTs = []*meta2.MeasurementInfo{dstMst}
+	ctx.streamShardKeyInfos = make([]*meta2.ShardKeyInfo, 1)
+	ctx.streamWriteHelpers = []*writeHelper{newWriteHelper(pw)}
+	ctx.streamAliveShardIdxes = make([][]int, 1)
+	return pw.updateShardGroupAndShardKey(database, retentionPolicy, row, ctx, true, nil, 0, true)
+}
